@@ -421,6 +421,17 @@ impl State {
         )
     }
 
+    /// Returns true while the local message head (HEADERS) is still owed.
+    pub fn is_send_awaiting_headers(&self) -> bool {
+        matches!(
+            self.inner,
+            Open {
+                local: AwaitingHeaders,
+                ..
+            } | HalfClosedRemote(AwaitingHeaders)
+        )
+    }
+
     pub fn is_recv_end_stream(&self) -> bool {
         // In each case END_STREAM has been received.
         matches!(
